@@ -282,6 +282,54 @@ fn rsq_cases(r: &mut Rng, t: Tier, ops: &[&str], extra: &[&str], n_cases: usize,
     }
 }
 
+/// the public prefetch entry points with arbitrary positions (in range, past the end, huge)
+fn prefetch_api_cases(r: &mut Rng, n_cases: usize, out: &mut Vec<Case>) {
+    for i in 0..n_cases {
+        let mut c = Case::new("prefetch-api");
+        let n = match i % 5 {
+            0 => 0,
+            1 => r.range(1, 300) as usize,
+            _ => some_len(r, 20_000),
+        };
+        c.tag(format!("lenclass={}", len_class(n)));
+        c.tag("prefetch-api");
+        c.nontrivial = n >= 2;
+        c.l("cfg 256 0 8 * u8");
+        let alpha: Vec<u128> = vec![0, 1, 2, 3];
+        let shape = r.below(9);
+        let v = if n == 0 { vec![] } else { shaped_seq(r, n, &alpha, shape) };
+        let ones: Vec<usize> = (0..n).filter(|_| r.chance(1, 3)).collect();
+        c.l(format!("mk 0 rsq 256 {}", join(&v)));
+        c.l(format!("mk 1 rsq 512 {}", join(&v)));
+        c.l(format!("mk 2 bvbits {} {}", n, join(&ones)));
+        c.l("mk 3 rsw 2");
+        c.l(if i % 2 == 0 { "mk 4 rsqdefault 256" } else { "mk 4 rsqdefault 512" });
+        c.l("mk 5 rswdefault");
+        let mut poss: Vec<usize> = vec![0, 1, 255, 256, 257, 511, 512, 513, 2047, 2048, 4095, 4096, n.saturating_sub(1), n, n + 1, 2 * n + 7,
+                                        1 << 32, 1 << 43, 1 << 63, usize::MAX - 511, usize::MAX - 1, usize::MAX];
+        for _ in 0..6 {
+            poss.push(r.below(n as u64 + 2) as usize);
+            poss.push(r.next() as usize);
+        }
+        for &p in &poss {
+            for k in [0, 1, 4] {
+                c.l(format!("q {} prefetch_info {}", k, p));
+                c.l(format!("q {} prefetch_data {}", k, p));
+            }
+            for k in [3, 5] {
+                c.l(format!("q {} prefetch_info {}", k, p));
+                c.l(format!("q {} prefetch_data {}", k, p));
+            }
+            c.l(format!("q 2 prefetch_line {}", p));
+            c.l(format!("u prefetch_nta {} {}", [0usize, 1, 8, 100][i % 4], p));
+        }
+        // the structures still answer afterwards
+        c.l(format!("q 0 rank 1 {}", n));
+        c.l(format!("q 3 rank1 {}", n));
+        out.push(c);
+    }
+}
+
 fn rsbin_cases(r: &mut Rng, t: Tier, kinds: &[&str], ops: &[&str], extra: &[&str], n_cases: usize, out: &mut Vec<Case>) {
     for i in 0..n_cases {
         let kind = kinds[i % kinds.len()];
@@ -871,9 +919,18 @@ pub fn cases(prop: &str, t: Tier, seed: u64) -> Vec<Case> {
                     max_card: 300,
                     max_symbol: Some(if fam == "hqwt" { 3000 } else { 60000 }),
                 };
-                out.push(tree_case(r, &o));
+                let mut c = tree_case(r, &o);
+                // the same queries on a deserialised copy / a clone: every reachable state of the eight types
+                if i % 3 != 2 {
+                    let qs: Vec<String> = retarget(&c.lines, 0, 1).into_iter().filter(|l| l.contains(" rank_prefetch ")).collect();
+                    c.l(if i % 3 == 0 { "mk 1 serde 0" } else { "mk 1 copy 0" });
+                    c.tag(if i % 3 == 0 { "via=serde" } else { "via=clone" });
+                    c.lines.extend(qs);
+                }
+                out.push(c);
             }
             huff_profile_cases(r, t, "hqwt", &["rank_prefetch", "rank"], &[], &mut out);
+            prefetch_api_cases(r, scale(t, 8, 40), &mut out);
         }
         "C10" => {
             tree_family_cases(r, t, "qwt", &["get_unchecked", "rank_unchecked", "select_unchecked", "rank_prefetch_unchecked", "get", "rank", "select"], &[], scale(t, 24, 160), &mut out);
@@ -910,8 +967,8 @@ pub fn cases(prop: &str, t: Tier, seed: u64) -> Vec<Case> {
         }
         "C11" => {
             let mut tmp = vec![];
-            tree_family_cases(r, t, "qwt", &["len", "get", "rank", "select"], &[], scale(t, 24, 120), &mut tmp);
-            tree_family_cases(r, t, "hqwt", &["len", "get", "rank", "select"], &[], scale(t, 24, 120), &mut tmp);
+            tree_family_cases(r, t, "qwt", &["len", "get", "rank", "select", "rank_prefetch"], &[], scale(t, 24, 120), &mut tmp);
+            tree_family_cases(r, t, "hqwt", &["len", "get", "rank", "select", "rank_prefetch"], &[], scale(t, 24, 120), &mut tmp);
             tree_family_cases(r, t, "wt", &["len", "get", "rank", "select"], &[], scale(t, 12, 60), &mut tmp);
             tree_family_cases(r, t, "hwt", &["len", "get", "rank", "select"], &[], scale(t, 12, 60), &mut tmp);
             rsq_cases(r, t, &["len", "get", "rank", "select", "occs"], &[], scale(t, 16, 80), &mut tmp);
@@ -1347,6 +1404,7 @@ pub fn cases(prop: &str, t: Tier, seed: u64) -> Vec<Case> {
             rsbin_cases(r, t, &["rsn", "rsw"], &["get", "rank1", "rank0", "select1", "select0", "n_ones", "n_zeros"], &[], scale(t, 30, 200), &mut out);
             darray_cases(r, t, &[], scale(t, 12, 80), &mut out);
             bvm_history_cases(r, t, scale(t, 16, 100), &mut out);
+            prefetch_api_cases(r, scale(t, 10, 40), &mut out);
             if t == Tier::Thorough {
                 out.push(deepcode_case("hqwt"));
             }
